@@ -165,3 +165,29 @@ impl TryFrom<HandshakeState> for StatelessTransportState {
         StatelessTransportState::new(old)
     }
 }
+
+#[cfg(all(feature = "verif-hooks", not(feature = "std")))]
+use alloc::boxed::Box;
+
+#[cfg(feature = "verif-hooks")]
+impl StatelessTransportState {
+    /// Verification hook: build a stateless transport session from given cipher objects.
+    #[must_use]
+    pub fn verif_from_parts(
+        cipher_i: Box<dyn crate::types::Cipher>,
+        cipher_r: Box<dyn crate::types::Cipher>,
+        pattern: HandshakePattern,
+        dh_len: usize,
+        rs: [u8; MAXDHLEN],
+        rs_on: bool,
+        initiator: bool,
+    ) -> Self {
+        use crate::cipherstate::{CipherState, CipherStates};
+        let cipherstates = CipherStates(
+            CipherState::verif_from_parts(cipher_i, 0, true),
+            CipherState::verif_from_parts(cipher_r, 0, true),
+        );
+        let rs = if rs_on { Toggle::on(rs) } else { Toggle::off(rs) };
+        Self { cipherstates: cipherstates.into(), pattern, dh_len, rs, initiator }
+    }
+}
